@@ -308,6 +308,18 @@ def native_bounded_phase(prop, natives, units, features, res, known_by_ob=None, 
     env["VERIF_TIER"] = tier   # native boxes widen their bounds under the thorough tier
     t0 = time.time()
     rc, out, secs, killed = _run(cmd, cwd=crate_dir, timeout=3600, env=env)
+    if rc != 0 and "Running unittests" not in out and re.search(r"error(\[E\d+\])?: ", out):
+        # the unit no longer compiles against this tree (typically: a harness names a function whose signature changed).
+        # The native boxes only use behaviour reachable from the crate's API: rebuild with the harness items removed.
+        log("[%s] native build failed; retrying with the Kani harness items stripped from the injected modules" % cid)
+        work = new_workdir(cid + "-native2")
+        crate_dir = stage_crate(work)
+        try:
+            inject(crate_dir, units, extra_by_unit=extra, native_only=True)
+            rc, out, secs, killed = _run(cmd, cwd=crate_dir, timeout=3600, env=env)
+            res.assumptions.append("native boxes built without the Kani harness items of their unit (those no longer compile against this tree)")
+        except Undecided:
+            pass
     res.backend_cmds.append(" ".join(cmd))
     k = out.find("Running unittests")
     shown = out[k:] if k >= 0 else out
